@@ -24,8 +24,8 @@ Definition c20_exc (enzyme : val) (exc_mode : Z) : option rule :=
   then lookup trypsin_exception_literal site_rules      (* the literal found in the source *)
   else None.
 
-(* switches as translated from the current source: [site_index_shift; 2] *)
-Definition api_c20_switches (_ : val) : val := VL [VZ site_index_shift; VZ 2].
+(* switches as translated from the current source: [site_index_shift; 2; sort_key_variant] *)
+Definition api_c20_switches (_ : val) : val := VL [VZ site_index_shift; VZ 2; VZ sort_key_variant].
 
 (* [method; enzyme; [shift; exc_mode; keyhdr]; nterm; cterm; pattern; max_attempts;
     decoy_string; prefix; order] *)
